@@ -104,6 +104,10 @@ then sorts stably by key (insertion before the first element whose key is not sm
 position or `ValueError`; a handler may `return`; `except E` also catches the configured subclasses of `E`
 (`ColorValidationError ⊂ ValueError`, checked against the imported class).
 
+Emitters.  `k in D` / `k not in D` on a configured dict; `sep.join(xs)` on a list of strings; `obj.m()` on an object
+of a configured record class whose method `m` is itself a translated function (`methods=`: the object's fields are the
+callee's arguments; `depends=` makes this function untranslatable when the callee is).
+
 `isinstance(x, list)` is decided statically: `x : List _` is a Python `list` → True; an int, bool, str, `None`, or a
 record object is not → False.  An `if` (or `if not`) on such a test is translated as its live branch only — the other
 branch is dead for every input of the declared type and need not be typeable.  A union-typed input (`rtf_column_header`:
@@ -295,6 +299,55 @@ TARGETS = [
         dicts={"self._name_to_type": ("name_to_type", "Str", "Int")},
         alias={}, outputs={}, returns={}, ret_type="Int",
     ),
+    dict(
+        name="BorderAsRtf", file="row.py", cls="Border", func="_as_rtf", raises=True,
+        doc="Border._as_rtf: the control words of one cell border — the style's code from `BORDER_CODES` (`ValueError`\n"
+            "for an unknown style), `\\brdrwN`, and `\\brdrcfK` when a colour is set.  Parameters that stand for the\n"
+            "surroundings: `border_codes` (the module dict `BORDER_CODES` as a lookup), `get_color_index`\n"
+            "(`Utils._get_color_index`); `style`, `width`, `color` are the object's fields.",
+        records={}, classes=[("rtflite.row", "Border", {"style": "<class 'str'>", "width": "<class 'int'>",
+                                                         "color": "str | None"})],
+        fn_params=[("border_codes", "List Nat → Option (List Nat)"),
+                   ("get_color_index", "List Nat → Except Exc Int")],
+        params=[("style", "Str"), ("width", "Int"), ("color", "Option Str")], skip_params=["self"],
+        env={"self.style": ("style", "Str"), "self.width": ("width", "Int"), "self.color": ("color", "Option Str")},
+        dicts={"BORDER_CODES": ("border_codes", "Str", "Str")},
+        calls={"Utils._get_color_index": ("get_color_index", ["Str"], "Int", True)},
+        alias={}, outputs={}, returns={}, ret_type="Str",
+    ),
+    dict(
+        name="CellAsRtf", file="row.py", cls="Cell", func="_as_rtf", raises=True,
+        doc="Cell._as_rtf: the definition of one table cell — the four borders that are set (left, top, right, bottom;\n"
+            "each `Border._as_rtf`, the translated `Generated.Py.BorderAsRtf.run`), the vertical alignment code, `\\cellxN`.\n"
+            "Parameters for the surroundings: `border_codes`, `get_color_index` (handed on to the borders),\n"
+            "`vertical_alignment_codes` (the dict `VERTICAL_ALIGNMENT_CODES`), `inch_to_twip` (`Utils._inch_to_twip`,\n"
+            "on the cell width, a float translated as exact `Rat`).",
+        records={"Border": [("style", "Str"), ("width", "Int"), ("color", "Option Str")]},
+        classes=[("rtflite.row", "Border", {"style": "<class 'str'>", "width": "<class 'int'>", "color": "str | None"}),
+                 ("rtflite.row", "Cell", {"width": "<class 'float'>", "vertical_justification": "str | None",
+                                          "border_top": "rtflite.row.Border | None",
+                                          "border_right": "rtflite.row.Border | None",
+                                          "border_bottom": "rtflite.row.Border | None",
+                                          "border_left": "rtflite.row.Border | None"})],
+        fn_params=[("border_codes", "List Nat → Option (List Nat)"),
+                   ("get_color_index", "List Nat → Except Exc Int"),
+                   ("vertical_alignment_codes", "List Nat → Option (List Nat)"),
+                   ("inch_to_twip", "Rat → Int")],
+        params=[("border_left", "Option Border"), ("border_top", "Option Border"), ("border_right", "Option Border"),
+                ("border_bottom", "Option Border"), ("vertical_justification", "Option Str"), ("width", "Rat")],
+        skip_params=["self"],
+        env={"self.border_left": ("border_left", "Option Border"), "self.border_top": ("border_top", "Option Border"),
+             "self.border_right": ("border_right", "Option Border"),
+             "self.border_bottom": ("border_bottom", "Option Border"),
+             "self.vertical_justification": ("vertical_justification", "Option Str"),
+             "self.width": ("width", "Rat")},
+        dicts={"VERTICAL_ALIGNMENT_CODES": ("vertical_alignment_codes", "Str", "Str")},
+        calls={"Utils._inch_to_twip": ("inch_to_twip", ["Rat"], "Int")},
+        methods={("Border", "_as_rtf"): ("Generated.Py.BorderAsRtf.run border_codes get_color_index",
+                                         ["style", "width", "color"], "Str", True)},
+        imports=["Generated.PyBorderAsRtf"], depends=["BorderAsRtf"],
+        alias={}, outputs={}, returns={}, ret_type="Str",
+    ),
     _additional_rows("AdditionalRowsFlat", "List (Option Comp)", "a flat list `[header | None, …]`"),
     _additional_rows("AdditionalRowsNested", "List (List (Option Comp))",
                      "a nested list `[[header | None, …], …]` (one Python list per section)"),
@@ -427,6 +480,14 @@ class Fn:
         if isinstance(e, ast.Compare):
             if len(e.ops) != 1:
                 raise Untranslatable(f"chained comparison {src}")
+            if isinstance(e.ops[0], (ast.In, ast.NotIn)) and \
+                    ast.unparse(e.comparators[0]) in (self.cfg.get("dicts") or {}):
+                # `k in D` / `k not in D` on a configured dict (a lookup function)
+                lean_fn, kt, _vt = self.cfg["dicts"][ast.unparse(e.comparators[0])]
+                k, tk = self.expr(e.left, defined)
+                if tk != kt:
+                    raise Untranslatable(f"{src}: key of type {tk}")
+                return f"({lean_fn} {k}).{'isSome' if isinstance(e.ops[0], ast.In) else 'isNone'}", "Bool"
             a, ta = self.expr(e.left, defined)
             if isinstance(e.ops[0], (ast.Is, ast.IsNot)):
                 rhs = e.comparators[0]
@@ -556,6 +617,26 @@ class Fn:
                     raise Untranslatable(f"sort key of type {et} in {src}")
                 body = "; ".join(binds + [f"pure {ev}"])
                 return self.tmp(f"Generated.Py.pySortedByKey {xs} (fun {kv} => do {body})", src), txs
+            if isinstance(f, ast.Attribute) and f.attr == "join" and len(e.args) == 1 and not e.keywords:
+                sep, tsep = self.expr(f.value, defined)
+                xs, txs = self.expr(e.args[0], defined)
+                if tsep == "Str" and txs == "List Str":          # sep.join(xs)
+                    return f"(Generated.Py.pyJoin {sep} {xs})", "Str"
+                raise Untranslatable(f"{src} on {tsep}, {txs}")
+            if isinstance(f, ast.Attribute) and not e.args and not e.keywords and (self.cfg.get("methods") or {}):
+                # obj.m() on an object of a configured record class whose method m is itself translated: the
+                # object's fields are the callee's arguments
+                n = len(self.pending)
+                try:
+                    recv, trecv = self.expr(f.value, defined)
+                except Untranslatable:
+                    del self.pending[n:]
+                    recv, trecv = None, None
+                spec = self.cfg["methods"].get((trecv, f.attr))
+                if spec is not None:
+                    lean_fn, fields, rty, may_raise = spec
+                    call = f"{lean_fn} " + " ".join(f"{recv}.{fl}" for fl in fields)
+                    return (self.tmp(call, src) if may_raise else f"({call})"), rty
             if isinstance(f, ast.Attribute) and f.attr == "index" and len(e.args) == 1 and not e.keywords:
                 xs, txs = self.expr(f.value, defined)
                 v, tv = self.expr(e.args[0], defined)
@@ -1401,6 +1482,12 @@ def pyIndex {α : Type} (xs : List α) (i : Int) : Except Exc α :=
 def sumRat (xs : List Rat) : Rat := xs.foldl (· + ·) 0
 
 def sumInt (xs : List Int) : Int := xs.foldl (· + ·) 0
+
+/-- `sep.join(xs)` on strings -/
+def pyJoin (sep : List Nat) : List (List Nat) → List Nat
+  | [] => []
+  | [x] => x
+  | x :: y :: rest => x ++ sep ++ pyJoin sep (y :: rest)
 
 /-- `d[k]` on a dict given as a lookup function: `KeyError` when the key is absent -/
 def pyDictGet {κ ν : Type} (d : κ → Option ν) (k : κ) : Except Exc ν :=
